@@ -94,7 +94,7 @@ func genShapeScript(r *rand.Rand, parallel bool, p engParams) []scripted.Reply {
 	}
 	if r.Intn(3) == 0 {
 		for i := 0; i < 3; i++ {
-			script = append(script, scripted.Reply{At: time.Duration(r.Int63n(int64(total))) | 1, Bad: 1 + r.Intn(2)})
+			script = append(script, scripted.Reply{At: time.Duration(r.Int63n(int64(total))) | 1, Bad: 1 + r.Intn(4)})
 		}
 	}
 	return script
